@@ -13,7 +13,8 @@ RULE = ("Case = group of 1-3 real consumers over growing logs (external appends 
         "k-th request (no leave, no final commit), stopped, or started late, OffsetCommit/Heartbeat/JoinGroup/"
         "SyncGroup replies with retriable and membership error codes, dropped or lost, coordinator failover. "
         "Every OffsetCommit is judged at the moment the client writes it. Non-trivial = a kill/stop/rebalance "
-        "happened with records consumed but not yet committed, or a commit was refused. Distinct = distinct "
+        "happened with records consumed but not yet committed, or a commit was refused, or the committed offsets "
+        "of one assignment were looked up in several requests. Distinct = distinct "
         "case value.")
 ASSUMPTIONS = ["simulated group coordinator / offset store (vlib/simkafka/group.py); the start of an assignment epoch is taken "
                "from the OffsetFetch replies the simulator sent, not from client internals",
@@ -129,7 +130,17 @@ def evaluate(case, obs):
                 covered = any((a.extra.get("commit", {}).get("offsets", {}).get(last["tp"], -1) > last["offset"]) for a in commits)
                 if not covered:
                     uncommitted_at_event = True
-    out.nontrivial = bool(uncommitted_at_event or refused)
+    # several committed-offset lookups inside one assignment epoch (partitions whose position is established late)
+    split_lookup = False
+    for tag, evs in tl.items():
+        begins = [e["t"] for e in evs if e["kind"] == "assigned_begin"] + [float("inf")]
+        of = sorted(a.t for a in c.arrivals if a.api == "offset_fetch" and a.client_id == tag)
+        for lo, hi in zip(begins, begins[1:]):
+            if sum(1 for t in of if lo - 0.5 <= t < hi) >= 2:
+                split_lookup = True
+    if split_lookup:
+        out.label("committed_lookups_split_within_epoch")
+    out.nontrivial = bool(uncommitted_at_event or refused or split_lookup)
     if uncommitted_at_event:
         out.label("membership_event_with_uncommitted_records")
     if refused:
@@ -193,6 +204,11 @@ def strategy():
         for _ in range(draw(st.integers(1, 6))):
             env.append({"at": draw(st.sampled_from([0.1, 0.3, 0.6, 1.0, 1.5, 2.2, 3.0])), "ev": "append",
                         "tp": ["t0", draw(st.integers(0, topics["t0"] - 1))], "n": draw(st.integers(1, 4))})
+        if draw(st.integers(0, 2)) == 0:
+            # a partition without a leader for a while: its position is established later than its siblings'
+            at = draw(st.sampled_from([0.0, 0.0, 0.15, 0.7, 1.4]))
+            env.append({"at": at, "ev": "leader_gone", "topic": "t0", "partition": draw(st.integers(0, topics["t0"] - 1)),
+                        "back_at": at + draw(st.sampled_from([0.03, 0.1, 0.25, 0.6]))})
         if nodes > 1 and draw(st.integers(0, 3)) == 0:
             env.append({"at": draw(st.sampled_from([0.5, 1.5])), "ev": "move_group_coord", "to": draw(st.integers(0, 1)),
                         "keep_state": draw(st.booleans())})
@@ -204,7 +220,34 @@ def strategy():
     return cases()
 
 
+def late_lookup_cases(shard, nshards):
+    """m0 consumes, commits and stops; m1 takes both partitions over while one of them has no leader until a swept
+    instant and every round trip is slow: that partition's committed-offset lookup is registered while the
+    lookup for its sibling is in flight.  The new owner must still start it from the group's committed offset."""
+    i = 0
+    for lat in (0.02, 0.004):
+        for auto in (True, False):
+            for back in [round(0.20 + 0.02 * j, 2) for j in range(36)]:
+                i += 1
+                if i % nshards != shard:
+                    continue
+                cfg = {"assignors": ["range"], "session_timeout_ms": 1000, "heartbeat_interval_ms": 100,
+                       "rebalance_timeout_ms": 1500, "retry_backoff_ms": 10, "auto_commit": auto,
+                       "auto_commit_interval_ms": 120, "metadata_max_age_ms": 1000, "request_timeout_ms": 2000}
+                m0 = {"topics": ["t0"], "start_at": 0.0, "callback_delay": 0, "max_poll_records": 2,
+                      "ops": [["poll", "getmany", 0.1, 2]] * 3 + [["commit"], ["stop"]]}
+                m1 = {"topics": ["t0"], "start_at": 2.0, "callback_delay": 0, "max_poll_records": None,
+                      "ops": [["poll", "getmany", 0.1, None]] * 6 + [["commit"]]}
+                yield {"cfg": cfg, "cluster": {"nodes": 2, "topics": {"t0": 2}, "join_max": 5, "group_coord": 0, "initial": [3, 2, 4]},
+                       "members": [m0, m1], "kills": [],
+                       # m0 looks its offsets up once (k=0); m1's first lookup is held at the coordinator
+                       "faults": [{"sel": "offset_fetch", "k": 1, "act": "delay", "code": 0, "delay": 0.3}],
+                       "env": [{"at": 1.9, "ev": "leader_gone", "topic": "t0", "partition": 1, "back_at": 2.0 + back}],
+                       "run_for": 4.0, "lat": [lat], "chunks": [0], "rng_seed": 5}
+
+
 def campaigns(tier):
     th = tier == "thorough"
-    return [Campaign("commit_sim", "hyp", execute=execute, strategy=strategy, examples=12000 if th else 640,
+    return [Campaign("late_lookup", "enum", execute=execute, cases=late_lookup_cases, exhaustive=True, setup=GS.setup),
+            Campaign("commit_sim", "hyp", execute=execute, strategy=strategy, examples=12000 if th else 640,
                      setup=GS.setup, max_wall=1000 if th else 110, shrink_wall=40)]
